@@ -30,8 +30,11 @@ let token_of_tuple (t : tuple) : string =
   if t = [] then "_" else String.concat "," (List.map hex_of_bytes t)
 
 let kind_of = function "c" -> KCounter | "g" -> KGauge | _ -> KHist
+(* the default cap VALUE is the implementation's choice: taken from the first `dcap=<n>` token of the implementation's output
+   (the corpus starts with a `probe` case); HEAD's 10000 when a batch carries none *)
+let dcap_reported : int ref = ref 10000
 let mk_cfg kind cap nl buckets variant =
-  { c_kind = kind_of kind; c_cap = eff_cap (z_of_int cap);
+  { c_kind = kind_of kind; c_cap = eff_cap_with (z_of_int !dcap_reported) (z_of_int cap);
     c_nlabels = nat_of_int nl; c_buckets = buckets;
     c_variant = (if variant = "defective" then Defective else Repaired) }
 
@@ -258,7 +261,7 @@ let run_conc (f : string list) (impl : string) (variant : string) : string =
       let ok = if variant = "defective" then (fun o -> Hashtbl.mem rd o)
         else begin
           let rr = reachable (mk_cfg kind capi (int_of_string nl) [z_of_int 1; z_of_int 5] "repaired") setup progs limit in
-          let capeff = if capi = 0 then 10000 else capi in
+          let capeff = if capi = 0 then !dcap_reported else capi in
           (* sanity: the theorems say the repaired machine never produces a monitor violation *)
           Hashtbl.iter (fun o () -> if monitor capeff o <> [] then failwith ("MODELBUG repaired machine violates monitor: " ^ o)) rr;
           (* /repo implements the repaired algorithm: ONLY its reachable observations are admissible *)
@@ -317,7 +320,7 @@ let run_reg (f : string list) (impl : string) (variant : string) : string =
   match f with
   | _ :: cap :: _rounds :: _noise :: pre :: ths ->
     let capi = int_of_string cap in
-    let capeff = if capi = 0 then 10000 else capi in
+    let capeff = if capi = 0 then !dcap_reported else capi in
     let parsed = List.mapi (fun i tok -> match String.split_on_char '@' tok with
         | [name; kind; nl; prog] ->
           (* label-name list: "<n>" = l0..l(n-1), "L1.0" = the listed indices in that order *)
@@ -379,6 +382,10 @@ let () =
   let impl = if Array.length Sys.argv > 2 && Sys.argv.(2) <> "-" then read_lines Sys.argv.(2) else [] in
   let variant = if Array.length Sys.argv > 3 then Sys.argv.(3) else "repaired" in
   let impl_arr = Array.of_list impl in
+  (try List.iter (fun l -> List.iter (fun t ->
+       if String.length t > 5 && String.sub t 0 5 = "dcap=" then begin
+         let v = int_of_string (String.sub t 5 (String.length t - 5)) in
+         if v >= 1 then (dcap_reported := v; raise Exit) end) (tokens l)) impl with Exit -> () | _ -> ());
   List.iteri (fun i line ->
     let f = tokens line in
     let il = if i < Array.length impl_arr then impl_arr.(i) else "" in
@@ -388,6 +395,7 @@ let () =
          | "seq" :: _ -> run_seq f il variant
          | ("conc" | "rconc") :: _ -> run_conc f il variant
          | ("reg" | "rreg") :: _ -> run_reg f il variant
+         | "probe" :: _ -> if !dcap_reported >= 1 && il = Printf.sprintf "probe dcap=%d" !dcap_reported then il else "probe dcap=<positive>"
          | ("bulk" | "rbulk") :: _ :: cap :: nspec :: g :: _ ->
            (* bulk <kind> <cap> <n | +k> <g>: n distinct tuples (or k more than the package's default cap) resolved and emitted to
               once by g goroutines on a metric registered with MaxSeriesPerMetric = cap (0 = left at its zero value).  The VALUE
@@ -405,11 +413,15 @@ let () =
            let capz = int_of_z (eff_cap_with (z_of_int (max dcap 1)) (z_of_int (int_of_string cap))) in
            let series = get "series" and drops = get "drops" and tombs = get "tombs" and sum = get "sum" and cnt = get "count"
            and unk = get "unknown" and st = get "stale" in
+           let early = get "early" in
            let expect = if capz > 0 then min n capz else n in
-           let ok = n_ok && series >= 0 && (capz <= 0 || series <= capz) && cnt = series && sum = series && tombs = drops
-                    && series + drops = n && unk = 0 && st = 0 && (g > 1 || series = expect) in
+           let zi = z_of_int in
+           (* admissibility = the extracted Gallina predicate Model.bulk_ok (C20_bulk_ok_exact) — for every g *)
+           let ok = n_ok && n >= 0 &&
+                    bulk_ok (zi capz) (zi n) (zi series) (zi drops) (zi tombs) (zi sum) (zi cnt) (zi unk) (zi st) (zi early) in
+           ignore g;
            if ok then il else
-           Printf.sprintf "bulk n=%d dcap=%d series=%d drops=%d tombs=%d sum=%d count=%d unknown=0 stale=0"
+           Printf.sprintf "bulk n=%d dcap=%d series=%d drops=%d tombs=%d sum=%d count=%d unknown=0 stale=0 early=0"
              (if plus then max dcap 1 + kx else kx) (max dcap 1) expect (n - expect) (n - expect) expect expect
          | ("churn" | "rchurn") :: _ ->
            (* Arbitrarily long unregister / re-create / emit loops: no exploration, the theorems decide.  For EVERY program
